@@ -910,8 +910,7 @@ func (f *Frame) convert(st *State, x *ssa.Convert) Val {
 		r := vc.alloc(st, "bytes", "E|uint8")
 		name := compElem(types.Typ[types.Uint8], "")
 		vc.registerComp(name, SArr(SInt, SArr(SInt, SInt)))
-		fnm := vc.declareFun("bytesOf", []*Sort{SStr}, SArr(SInt, SInt))
-		vc.set(st, name, Store(vc.get(st, name), r, mk(SArr(SInt, SInt), fnm, v.one())))
+		vc.set(st, name, Store(vc.get(st, name), r, vc.injApp("bytesOf", []Term{v.one()}, SArr(SInt, SInt))))
 		ln := mk(SInt, "str.len", v.one())
 		return sliceVal(x.Type(), r, ln, ln)
 	case tok && tb.Info()&types.IsString != 0 && isByteSlice(from):
